@@ -10,6 +10,8 @@ import (
 	"syscall"
 
 	"github.com/avfs/avfs"
+
+	"verif/lib/fsx"
 )
 
 // Error families. The property: a Windows-typed file system "returns Windows
@@ -321,3 +323,125 @@ func classFindings(call string, lr, wr result) (whats []string) {
 
 	return whats
 }
+
+// Which of the two not-found values.
+//
+// General lesson: an error table that maps ONE value of the emulated-from OS
+// to TWO values of the emulated OS (ENOENT -> ERROR_FILE_NOT_FOUND 2 /
+// ERROR_PATH_NOT_FOUND 3) cannot be judged by family and class alone: both
+// values are Windows values and both are in fs.ErrNotExist, so the branch that
+// chooses between them (one per call, written by hand in each emulation) is
+// free to look at the wrong thing — the other operand of a two-path call, the
+// wrong directory — without any caller that asks "did it fail / is it
+// not-exist" noticing. The choice needs no Windows host to be judged: Windows
+// answers ERROR_PATH_NOT_FOUND when a DIRECTORY on the way to the name is
+// missing and ERROR_FILE_NOT_FOUND when only the last element is, and which of
+// the two holds is a fact of the tree before the call, which the driver
+// already computes for the signature (operandClass: "missing" / "missing(parent
+// missing)"). So for every call that fails with ENOENT on the Linux type
+// because an operand is missing (not below a file, not through a link: those
+// classes have other answers), the value on the Windows type is determined by
+// the class of the RESPONSIBLE operand; for the two-path calls (Rename, Link)
+// the responsible operand is the one the Linux side's rules name: the old name
+// is looked up first, the new name only matters when the old one exists. Both
+// operands are enumerated independently, so states where exactly one of the
+// two parent directories exists are reached (a choice made from the other
+// operand's directory agrees with the right one whenever both exist or both
+// are missing). CreateTemp names a DIRECTORY: the entry to create is below it,
+// so a missing operand of either class is a directory on the way. MkdirTemp
+// does too, but (as os.MkdirTemp) answers a failed creation with the error of
+// a Stat of that directory: it goes by the class of the operand like Stat.
+const (
+	clsMissing       = "missing"
+	clsParentMissing = "missing(parent missing)"
+)
+
+// notFoundWant returns the Windows not-found value ("WIN2"/"WIN3") the operand
+// classes of a call failing with ENOENT on the Linux type determine, which
+// operand is responsible (role "operand" / "old name" / "new name" /
+// "directory", its class, idx 0 = c.A, 1 = c.B); want "" when the classes do
+// not determine it (operands below links or files, default locations,
+// patterns).
+func notFoundWant(c fsx.Call, operands string) (want, role, class string, idx int) {
+	byClass := func(cl string) string {
+		switch strings.TrimPrefix(cl, "rel:") {
+		case clsMissing:
+			return "WIN2"
+		case clsParentMissing:
+			return "WIN3"
+		}
+
+		return ""
+	}
+
+	switch c.Op {
+	case "Rename", "Link":
+		f := strings.SplitN(operands, ",", 3)
+		if len(f) < 2 {
+			return "", "", "", 0
+		}
+
+		if w := byClass(f[0]); w != "" {
+			return w, "old name", strings.TrimPrefix(f[0], "rel:"), 0
+		}
+
+		// the old name exists as itself (no link on the way or at the end, whose
+		// resolution could be what failed): only a missing directory of the new
+		// name is left as the reason of ENOENT
+		switch f[0] {
+		case "file", "file(links)", "dirEmpty", "dirNonEmpty":
+			if byClass(f[1]) == "WIN3" {
+				return "WIN3", "new name", clsParentMissing, 1
+			}
+		}
+
+		return "", "", "", 0
+	case "CreateTemp":
+		if byClass(operands) != "" {
+			return "WIN3", "directory", strings.TrimPrefix(operands, "rel:"), 0
+		}
+
+		return "", "", "", 0
+	case "Symlink":
+		// the operand class is the one of the new name (c.B); c.A is content
+		return byClass(operands), "new name", strings.TrimPrefix(operands, "rel:"), 1
+	}
+
+	return byClass(operands), "operand", strings.TrimPrefix(operands, "rel:"), 0
+}
+
+// notFoundFinding is one deviation from the rule of "Which of the two
+// not-found values".
+type notFoundFinding struct {
+	what, role, class string
+	idx               int  // responsible operand: 0 = A, 1 = B
+	dirItself         bool // CreateTemp: the operand is the directory
+}
+
+// notFoundFindings judges the value of a call that failed on both sides with
+// ENOENT on the Linux type and one of the two not-found values on the Windows
+// type (see "Which of the two not-found values"): kind error-value.
+func notFoundFindings(c fsx.Call, operands string, lr, wr result) (fs []notFoundFinding) {
+	if lr.Kind != "ENOENT" || (wr.Kind != "WIN2" && wr.Kind != "WIN3") {
+		return nil
+	}
+
+	want, role, class, idx := notFoundWant(c, operands)
+	if want == "" || want == wr.Kind {
+		return nil
+	}
+
+	names := map[string]string{"WIN2": "ErrWinFileNotFound (only the last element is missing)", "WIN3": "ErrWinPathNotFound (a directory on the way is missing)"}
+
+	return []notFoundFinding{{
+		what: fmt.Sprintf("ENOENT on the Linux type for %s %s: the Windows type owes %s, it answers %s", role, class, names[want], wr.Kind),
+		role: role, class: class, idx: idx, dirItself: c.Op == "CreateTemp",
+	}}
+}
+
+// The calls of the unchanged tree that break the rule above are listed in
+// known_findings.txt (KF-C17-006, KF-C17-007): a Windows-typed OrefaFS answers
+// ErrWinFileNotFound where a directory on the way to the responsible operand
+// is missing in Chdir, Chtimes, Remove, Truncate, Rename (either name) and Link
+// (new name) — these calls look the name up in the flat node map and never
+// look at its directory; the Windows-typed MemFS answers ErrWinPathNotFound.
